@@ -238,6 +238,7 @@ def walk(e):
     """pre-order over all expression nodes below e (inclusive).  A call to a function that did not exist at the pinned commit (a helper some
     clean-up extracted) is followed into that function's body: what a rule looks for "inside f" is still inside f after part of f was given a name."""
     stack = [(e, ())]
+    callee_paths = set()
     while stack:
         x, active = stack.pop()
         if not isinstance(x, dict):
@@ -247,6 +248,10 @@ def walk(e):
         extra = []
         if _NEW_HELPERS and len(active) < 3:
             nm = callee_name(x)
+            if x.get("k") == "call" and isinstance(x.get("func"), dict):
+                callee_paths.add(id(x["func"]))
+            if nm is None and x.get("k") == "path" and len(x.get("segs", [])) >= 2 and id(x) not in callee_paths:
+                nm = x["segs"][-1]          # the helper handed over by name: `.map(Self::segment_to_string)`
             h = _NEW_HELPERS.get(nm) if nm else None
             if h is not None and nm not in active:
                 for st in h.body or []:
